@@ -17,6 +17,10 @@
 #                 implementation's classifier): -I front override, -L<anything> front and NOT de-dupable (linker
 #                 pass-through: -L-lfoo twice stays twice), -L<library file> front once-only, library files once.
 #
+#   part classes the class dimension itself: the argument-list classes defined anywhere under mesonbuild/ (source scan) must
+#                be exactly the driven ones; for each class the kinds its tables can produce (probe arguments built from
+#                every prefix/suffix/standalone entry of its tables) must all occur in its alphabet; the kinds the
+#                property statement names must agree with the tables (else violation tables-contradict-statement).
 #   part bfs     breadth-first search over operation sequences, de-duplicated on the product state
 #                  (real _container, pre, post, needs_override_check of the live object and of every frozen
 #                   original left behind by copy())  x  (reference list, reference lists of the originals).
@@ -56,7 +60,12 @@
 #    two-element batches with every other argument)
 #
 # Checked independently of the reference list (from the operation history only): no argument lost or invented,
-# non-dedupable arguments keep relative order and multiplicity, the later-added of duplicated settings wins.
+# non-dedupable arguments keep relative order and multiplicity (multiplicity = number of times added, whether the
+# argument is appended or - D's -L pass-through - prepended; order = every batch's prepended ones in front, the others
+# behind), the later-added of duplicated settings wins.
+#
+# One narrow defect class has its own key whatever observer shows it: once-only-argument-repeated-inside-one-batch-is-kept
+# (the only difference is extra copies of a once-only argument whose first addition held it several times in one batch).
 import argparse, collections, json, operator, os, re, sys
 from verif.core import Check, pmap, run_main, scratch_root, NCPU, REPO
 
@@ -1263,6 +1272,13 @@ def replay(ck):
     d = json.load(open(ck.args.replay))
     clsname = d['cls']
     kinds = KINDS[clsname]
+    if 'table_kind' in d:
+        a = d['table_kind']
+        st, tk = STATED[clsname].get(a), table_kind(CLS[clsname], a)
+        print('replay: class=%s argument %r: the property statement says %s, the tables of %s say %s'
+              % (clsname, a, KIND_NAMES.get(st), CLS[clsname].__name__, KIND_NAMES.get(tk, 'undetermined')))
+        print('replay verdict: %s' % ('violation reproduced' if st != tk else 'no violation'))
+        sys.exit(1 if st != tk else 0)
     if 'pair' in d:
         p = d['pair']
         ha = tuple((o[0], tuple(o[1])) for o in p['a'])
